@@ -193,8 +193,9 @@ class Policy:
                 )
             )
 
-        klass = classify_for_breaker(exc, self.retry)
-        record_failure(ctx, klass)
+        if ctx.breaker is not None:
+            klass = classify_for_breaker(exc, self.retry)
+            record_failure(ctx, klass)
 
     def execute(
         self,
